@@ -447,11 +447,14 @@ mod v_iface_ingress6 {
         let hop = b[7];
         ipv6_header(&mut b, 24, nh, hop, &src, if to_mcast { &ALL_NODES } else { &GL });
         if nh == 0 {
-            // hop-by-hop options header of 8 octets (length octet 0) followed by "no next header": the 6 option
-            // octets are free (a free length octet and inner next header did not finish in 25 minutes; option
+            // hop-by-hop options header of 8 octets (length octet 0) followed by "no next header": (a free
+            // length octet and inner next header, and six free option octets, did not finish in 25 minutes; option
             // walks over free bytes of any length are view_ipv6_hbh / view_ipv6_options_iter's subject)
             b[40] = 59;
             b[41] = 0;
+            // one option of 4 data octets with a free type octet (its two high bits select skip / discard /
+            // discard-and-report) and free data
+            b[43] = 4;
         }
         let reply = iface.inner.process_ip(&mut sockets, PacketMeta::default(), &b[..], &mut iface.fragments);
         kani::cover!(reply.is_some(), "a reply was produced");
@@ -460,7 +463,7 @@ mod v_iface_ingress6 {
         }
     }
 
-    // @harness props=C03,C10 cfg=KI6t tier=q to=1500 mem=12 unwind=24 opts=nomem covers=1 funcs=InterfaceInner::process_ip;InterfaceInner::process_ipv6;InterfaceInner::process_hopbyhop;InterfaceInner::process_nxt_hdr;InterfaceInner::process_tcp;InterfaceInner::icmpv6_reply bounds=raw-IP_medium,_one_listening_TCP_socket;_own_fe80::1_and_2001:db8::1;_concrete_40-octet_header_(hop_limit_free),_source_with_4_symbolic_octets,_destination_2001:db8::1_or_ff02::1;_24_free_octets_after_the_header;_next_header_0:_8-octet_hop-by-hop_options_header_with_6_free_option_octets,_then_no-next-header
+    // @harness props=C03,C10 cfg=KI6t tier=q to=1500 mem=12 unwind=24 opts=nomem covers=1 funcs=InterfaceInner::process_ip;InterfaceInner::process_ipv6;InterfaceInner::process_hopbyhop;InterfaceInner::process_nxt_hdr;InterfaceInner::process_tcp;InterfaceInner::icmpv6_reply bounds=raw-IP_medium,_one_listening_TCP_socket;_own_fe80::1_and_2001:db8::1;_concrete_40-octet_header_(hop_limit_free),_source_with_4_symbolic_octets,_destination_2001:db8::1_or_ff02::1;_24_free_octets_after_the_header;_next_header_0:_8-octet_hop-by-hop_options_header_holding_one_option_with_free_type_and_4_free_data_octets,_then_no-next-header
     #[cfg(feature = "socket-tcp")]
     #[kani::proof]
     pub(crate) fn ipv6_bytes_free() {
